@@ -137,11 +137,12 @@ PROPS = {
         ],
         "rule": "every default-route / interface-name combination for 0..3 interfaces (exhaustive) plus sampled 4..5 through daemon defaultForNetConf; PodENI allocations "
                 "(1..4 interfaces, v4/v6/dual, trunk or not, pods placed on the last addresses of the subnet, CIDRs with host bits, empty CIDRs, tiny subnets) through "
-                "RemoteIPResource.ToRPC; the full getDatePath matrix (exhaustive); NetConfs x CNI configs x runtime bandwidth overrides through the plugin's parseSetupConf "
+                "RemoteIPResource.ToRPC; the node-local pool's answer (LocalIPResource.ToRPC, single-stack pods on dual-stack interfaces) and the daemon's lookup of the addresses the cluster IPAM bound to the pod "
+                "(CRDV2.multiIP over Node records of 1..3 interfaces: entries idle, other pods', another uid, being deleted, interface not attached, CIDR missing; virtual time for the polling); the full getDatePath matrix (exhaustive); NetConfs x CNI configs x runtime bandwidth overrides through the plugin's parseSetupConf "
                 "(package main, in place). non-trivial = more than one interface, or a pod within 3 addresses of the subnet end, or a runtime override in one direction only; "
                 "distinct = distinct input vectors",
         "trusted": ["protobuf getters; net.ParseCIDR / net.ParseIP"],
-        "modelled": ["link.GetDeviceNumber (MAC -> ifindex) needs real NICs: cases use an empty MAC", "local-pool and CRD (crdv2) ToRPC paths are not driven yet; VPC-route IP type in parseSetupConf"],
+        "modelled": ["link.GetDeviceNumber (MAC -> ifindex) needs real NICs: cases use an empty MAC", "the cluster-IPAM lookup (crdv2.go multiIP) is driven against a fake API server with at most one entry per family bound to the pod (the record's own invariant, C02); VPC-route IP type in parseSetupConf is not driven"],
         "assumptions": ["E2: the cloud reserves the last three addresses of a vSwitch (never a pod address)"],
         "level_text": "Theorems for all configuration lists (exactly one default route, primary interface present, refused exactly for duplicate default / missing primary), all subnets "
                       "(gateway = third-from-last, inside the subnet, not the pod address under E2), all (type, vlan mode, trunk) triples (one datapath), all limits and overrides. "
@@ -656,7 +657,8 @@ def dist_C20(cases):
 
 # ---- C12 ---------------------------------------------------------------------
 def sig_C12(ins, outs):
-    return {"1": "C12:default-route", "2": "C12:podeni-netconf", "3": "C12:datapath", "4": "C12:parseSetupConf"}.get(ins[0], "C12:?")
+    return {"1": "C12:default-route", "2": "C12:podeni-netconf", "3": "C12:datapath", "4": "C12:parseSetupConf",
+            "5": "C12:local-pool-netconf", "6": "C12:cluster-ipam-netconf"}.get(ins[0], "C12:?")
 
 
 def nt_C12(ins, outs):
@@ -666,6 +668,8 @@ def nt_C12(ins, outs):
         return int(ins[2]) > 1 or True
     if ins[0] == "4":
         return (int(ins[24]) > 0) != (int(ins[25]) > 0) or int(ins[28]) > 0
+    if ins[0] == "6":
+        return outs[:1] == ["1"]   # an address bound to the pod was found
     return True
 
 
